@@ -274,11 +274,18 @@ package node
 //@   safety on
 //@   ensures[standing] n.standing()
 //@   requires n.standing() && cmd != nil
+// the snapshot handed out is the application's snapshot at the anchor block's index (what the receiver restores
+// after accepting that block)
+//@   call GetSnapshot assert[of-anchor-block] __called("getAnchorBlockWithFrame") && __lastret("getAnchorBlockWithFrame", 2) == nil && __arg(0) == block.Body.Index
 
 //@ func (n *Node) processJoinRequest(rpc net.RPC, cmd *net.JoinRequest)
 //@   safety on
 //@   ensures[standing] n.standing()
 //@   requires n.standing() && cmd != nil
+// a join/leave request enters the internal-transaction pool only if its signature verifies and the peer is not a
+// member already; otherwise the pool is left as it was (C10: nothing but accepted, signed requests changes the set)
+//@   call addInternalTransaction assert[verified-only] __called("Verify") && __lastretT[bool]("Verify", 0) && !__in(cmd.InternalTransaction.Body.Peer.PubKeyString(), n.core.peers.ByPubKey)
+//@   ensures[pool] !__called("addInternalTransaction") ==> __eq(n.core.internalTransactionPool, old(n.core.internalTransactionPool))
 
 //@ func (n *Node) processRPC(rpc net.RPC)
 //@   safety on
